@@ -25,6 +25,20 @@ fn model_case<T: Uni + Encode>(cx: &mut Cx, what: &str, v: &T, enc: &[u8]) {
 fn deque_history<T: Uni + Encode + Clone>(cx: &mut Cx, tn: &str, steps: usize) {
 	let mut q: VecDeque<T> = if cx.rng.chance(1, 2) { VecDeque::new() } else { VecDeque::with_capacity(cx.rng.range(1, 9) as usize) };
 	let mut log = vec![];
+	// some histories start next to a boundary of the count prefix, filled from both ends
+	let fill = *cx.rng.pick(&[0usize, 0, 0, 0, 62, 63, 64, 65, 16383]);
+	// the two-to-four-byte boundary only for one-byte elements, now and then (the cases are large)
+	let fill = if fill > 100 && (std::mem::size_of::<T>() != 1 || !cx.rng.chance(1, 4)) { 64 } else { fill };
+	for i in 0..fill {
+		if i % 3 == 0 {
+			q.push_front(T::gen(&mut cx.rng, 2));
+		} else {
+			q.push_back(T::gen(&mut cx.rng, 2));
+		}
+	}
+	if fill > 0 {
+		log.push(format!("fill({fill})"));
+	}
 	for _ in 0..steps {
 		match cx.rng.below(12) {
 			0 | 1 | 2 => {
@@ -280,7 +294,7 @@ pub fn run(args: &Args) {
 		bits_history::<u64, Lsb0>(&mut cx, "u64,Lsb0");
 		bits_history::<u64, Msb0>(&mut cx, "u64,Msb0");
 	}
-	let rule = "seeded construction histories on the real containers: VecDeque (push_front/back, pop, rotate, make_contiguous, reserve, shrink; checked after every operation, ring states counted in the distribution; element types u8/u32/u64/Vec<u8>/(u8,bool)/Box<u16> and three whose memory image is not their encoding: a zero-sized type with a wire byte, a struct with a skipped field that occupies memory, a transparent newtype around a compact), Vec/String capacity changes, Box/Rc/Arc/Cow/&& holders with clone/borrow/own transitions, BTreeMap/BTreeSet with insert/remove sequences rebuilt in reverse and shuffled order, LinkedList push/append/split_off, bit sequences placed at every offset 0..W+2 of a larger backing store (slice, owned, boxed) for six store/order combinations; oracle = equals the encoding of a freshly built equal value and is repeatable; cases = the model's encoding of the logical content; non-trivial = non-empty encoding";
+	let rule = "seeded construction histories on the real containers: VecDeque (push_front/back, pop, rotate, make_contiguous, reserve, shrink; checked after every operation, half of the histories starting from 62..65 (now and then 16383 one-byte) elements pushed from both ends, ring states counted in the distribution; element types u8/u32/u64/Vec<u8>/(u8,bool)/Box<u16> and three whose memory image is not their encoding: a zero-sized type with a wire byte, a struct with a skipped field that occupies memory, a transparent newtype around a compact), Vec/String capacity changes, Box/Rc/Arc/Cow/&& holders with clone/borrow/own transitions, BTreeMap/BTreeSet with insert/remove sequences rebuilt in reverse and shuffled order, LinkedList push/append/split_off, bit sequences placed at every offset 0..W+2 of a larger backing store (slice, owned, boxed) for six store/order combinations; oracle = equals the encoding of a freshly built equal value and is repeatable; cases = the model's encoding of the logical content; non-trivial = non-empty encoding";
 	cx.cases.write(&args.out, "c06", args.shards);
 	cx.oracle.write(&args.out);
 	cx.stats.write(&args.out, cx.cases.len(), cx.cases.nontrivial, cx.cases.dups, cx.oracle.checks, rule);
